@@ -47,7 +47,10 @@ let lifecycle n reverse =
 let () =
   iter_lines (fun line ->
     match split_ws line with
-    | ["S"; size; ri; rs; rc] ->
+    | ["S"; size; ri; rs; rcs] ->
+      (* the model makes ONE pthread_create call: only the first scripted result is ever consumed *)
+      let rcl = List.map int_of_string (String.split_on_char ',' rcs) in
+      let rc = string_of_int (List.hd rcl) in
       let (st, env) = create size (int_of_string ri) (int_of_string rs) (int_of_string rc) in
       let started = env.ThreadModel.e_started in
       let calls = String.concat " " (List.map show_call env.ThreadModel.e_calls) in
@@ -56,7 +59,11 @@ let () =
                  string_of_z t.ThreadModel.th_stack
         | _ -> "-", "-" in
       Printf.printf "M st=%s started=%d stack_ge=%s || %s stack=%s\n" (sname st) (List.length started) ge calls stack;
+      (* spec: with one possible outcome of thread creation the line is fixed; when a later attempt could succeed
+         the property leaves both "reported failure, nothing started" and "SUCCESS with one thread on a large
+         enough stack" open (checked by the plug-in's l1_extra) *)
       if int_of_string rc = 0 then Printf.printf "S st=SUCCESS started=1 stack_ge=1\n"
+      else if List.exists (fun r -> r = 0) rcl then Printf.printf "S * * *\n"
       else Printf.printf "S * started=0 stack_ge=-\n"
     | ["J"; r] ->
       let (st, env) = ThreadModel.thread_join_model (z_of_int 1) (z_of_int (int_of_string r))
